@@ -2,7 +2,6 @@ package otto
 
 import (
 	"strconv"
-	"time"
 )
 
 var (
@@ -22,15 +21,7 @@ var (
 		kind:  valueNumber,
 		value: 0,
 	}
-	prototypeValueDate = dateObject{
-		epoch: 0,
-		isNaN: false,
-		time:  time.Unix(0, 0).UTC(),
-		value: Value{
-			kind:  valueNumber,
-			value: 0,
-		},
-	}
+	prototypeValueDate   = invalidDateObject
 	prototypeValueRegExp = regExpObject{
 		regularExpression: nil,
 		global:            false,
